@@ -185,10 +185,11 @@ type Sched struct {
 	fin chan struct{}
 	ack chan struct{}
 
-	viols  []Violation
-	chans  map[uintptr]*chanState
-	log    []string
-	logObj Obj
+	viols    []Violation
+	chans    map[uintptr]*chanState
+	log      []string
+	logClock []int64
+	logObj   Obj
 
 	trace         bool
 	entries       []TraceEntry
@@ -825,6 +826,7 @@ func Log(ev string) {
 		return
 	}
 	s.log = append(s.log, ev)
+	s.logClock = append(s.logClock, s.clock)
 	s.commit(s.cur, KLog, &s.logObj, true, hashString(ev))
 }
 
@@ -835,6 +837,7 @@ func LogQuiet(ev string) {
 		return
 	}
 	s.log = append(s.log, ev)
+	s.logClock = append(s.logClock, s.clock)
 	s.commit(s.cur, KLog, &s.logObj, true, hashString(ev))
 }
 
